@@ -43,6 +43,35 @@ func runC10(c *core.Ctx) core.Meta {
 	checkPhysicalLayout(c, pint, prov)
 	checkRoundRobinCursors(c, pint)
 
+	// ---------------- R10.15 FreeMemory always reaches the allocator ----------------
+	st15 := c.Rule("R10.15", "Driver.FreeMemory hands every pointer to the allocator: on every path from its entry to a return the allocator's Free is called (a must-pass). The per-context buffer list is bookkeeping for copies; contexts created for an existing process share the address space but not that list, so a free that is conditional on finding the pointer in the calling context's list leaves a buffer allocated through a sibling context mapped, and its physical pages are never reusable", 1)
+	if fn := c.MustFunc("R10.15", driverPkg, "Driver.FreeMemory"); fn != nil {
+		c.MarkAnalysed(fn)
+		g := core.BuildGraph(fn, 1, func(cal *ssa.Function) bool { return cal.Pkg == fn.Pkg })
+		isFree := func(n *core.Node) bool {
+			cc := core.CallOf(n.Instr)
+			if cc == nil {
+				return false
+			}
+			if cc.IsInvoke() {
+				return cc.Method.Name() == "Free"
+			}
+			return cc.StaticCallee() != nil && cc.StaticCallee().Name() == "Free"
+		}
+		st15.Instances++
+		var leak *core.Node
+		okW := g.Walk([]core.State{{N: g.Entry}}, core.WalkOpts{ForwardOnly: true, Stop: isFree}, func(x core.State) {
+			if _, isRet := x.N.Instr.(*ssa.Return); isRet && x.N.Frame.Parent == nil && leak == nil {
+				leak = x.N
+			}
+		})
+		st15.Ob(okW && leak == nil)
+		st15.Sample("Driver.FreeMemory: the allocator's Free is called on every path: %v", leak == nil)
+		if leak != nil {
+			c.ReportAt("R10.15", fn, leak.Instr.Pos(), "free-skips-allocator", "Driver.FreeMemory can return without having called the allocator's Free: a pointer that is not in the calling context's buffer list (allocated through a sibling context of the same process) stays mapped, FreeMemory reports success, and the device runs out of memory within its capacity")
+		}
+	}
+
 	// ---------------- R10.1 lock discipline of the allocator ----------------
 	st1 := c.Rule("R10.1", "every access to a field of memoryAllocatorImpl happens with its embedded mutex held: exported methods lock before touching a field and keep the lock to every exit; unexported helpers that touch fields are reached only from call sites that hold the lock of the same allocator", 15)
 	type unl struct {
